@@ -11,4 +11,6 @@ def units(tier):
     u = pyvc_units("C05", ["vf.contracts.c_emulator", "vf.contracts.c_state"]) + []
     for l in [x for x in circuit_labels(tier) if x not in ('tiny', 'U3[late-herald]')]:   # 'tiny' exists for the sampler's documented 1e-9 truncation only
         u.append(dict(kind="xlift", mechanism="xlift bounded (C), exact", name=f"xlift:analyzer+quick[{l}]", module="vf.tasks.t_fock", func="unit", args=dict(which="analyzer", label=l)))
+    # the analyzer reused across calls (circuit edited / re-assigned, loss added, post-selection changed): same answers as a fresh analyzer (unit shared with C11)
+    u.append(dict(kind="func", mechanism="bounded runtime contract (C)", name="bounded:analyzer-histories", module="vf.tasks.t_history", func="unit", args=dict(kind="analyzer")))
     return u
